@@ -394,7 +394,6 @@ func (m *Machine) Dispose() {
 			return
 		}
 		// fmt.Println("dispose locals " + m.Id())
-		m.queueProcessing.Store(false)
 		m.unlockDisposed.Store(true)
 		verifPoint(m, "dd:unlocked")
 		m.doDispose(false)
@@ -421,6 +420,11 @@ func (m *Machine) doDispose(force bool) {
 	if !m.disposing.CompareAndSwap(false, true) {
 		// already disposing
 		return
+	}
+	// let go of the queue lock only after the disposal has been flagged, so no
+	// new transition starts next to one which is still running
+	if m.unlockDisposed.Load() {
+		m.queueProcessing.Store(false)
 	}
 	verifPoint(m, "dd:disposing")
 	if !force {
